@@ -389,12 +389,22 @@ impl KeyValueStore {
         crate::verif::sched(crate::verif::SchedEvent::Linked(wait_guard.index()));
         #[cfg(rescrv_blue_verif)]
         crate::verif::sched(crate::verif::SchedEvent::Point("write:sequenced"));
-        let mut log_batch = sst::log::WriteBatch::default();
-        for entry in batch.entries.iter() {
-            log_batch.insert(KeyValueRef::from(entry))?;
+        let res = (|| {
+            let mut log_batch = sst::log::WriteBatch::default();
+            for entry in batch.entries.iter() {
+                log_batch.insert(KeyValueRef::from(entry))?;
+            }
+            self.poison(log.append(log_batch))?;
+            self.poison(memtable.write(&mut batch))
+        })();
+        if let Err(err) = res {
+            // Leave the wait list under the state lock and pass the head on, or the writes
+            // queued behind this one wait forever.
+            let _state = self.state.lock().unwrap();
+            drop(wait_guard);
+            self.wait_list.notify_head();
+            return Err(err);
         }
-        self.poison(log.append(log_batch))?;
-        self.poison(memtable.write(&mut batch))?;
         drop(memtable);
         drop(log);
         #[cfg(rescrv_blue_verif)]
